@@ -1,6 +1,6 @@
 (* C23/Bounded.v -- from the vm_compute sweeps to statements quantified over trees / announcements. *)
 From Coq Require Import NArith List Bool Arith.
-From C23 Require Import Model Spec Enum Proofs Exhaustive Exhaustive4 Exhaustive5.
+From C23 Require Import Model Spec Enum Proofs Exhaustive Exhaustive4.
 Import ListNotations.
 Local Open Scope N_scope.
 
@@ -33,14 +33,9 @@ Lemma bounded_3 : forall t, wf t = true -> (length t <= 3)%nat ->
 Proof. intros t W L. apply (from_sweep (length t) 2 2 (pick (length t) L) t W eq_refl). Qed.
 
 Lemma bounded_4 : forall t, wf t = true -> length t = 4%nat ->
-  forall sf, In sf (change_sets (S (length t)) t 2 2 1) ->
-  explore (2 * length t + 1) t (fst sf) (snd sf) [O] O ginit sinit = true.
-Proof. intros t W L. apply (from_sweep 4 2 2 sweep_4 t W L). Qed.
-
-Lemma bounded_5 : forall t, wf t = true -> length t = 5%nat ->
   forall sf, In sf (change_sets (S (length t)) t 1 1 1) ->
   explore (2 * length t + 1) t (fst sf) (snd sf) [O] O ginit sinit = true.
-Proof. intros t W L. apply (from_sweep 5 1 1 sweep_5 t W L). Qed.
+Proof. intros t W L. apply (from_sweep 4 1 1 sweep_4 t W L). Qed.
 
 (* ---- the meaning of the sweeps in terms of event lists ---- *)
 (* Along the history evs, as long as each event is possible (next_events) and outside the guard
